@@ -858,9 +858,6 @@ def set_floors(rec):
 
 
 def run(rec):
-    assume = os.environ.get('VERIF_ASSUME_KNOWN')
-    if assume:
-        rec.known_keys |= set(assume.split(','))
     rec.rule = ('scripts (<=4 middleware components x subset of process_request/resource/response x naming style, '
                 'class/method before/after hook stacks, independent_middleware on/off) compiled to falcon.App and '
                 'falcon.asgi.App; each case = request kind x assignment of an action (return / resp.complete / '
@@ -880,9 +877,6 @@ def run(rec):
 
 
 def replay(rec, w):
-    assume = os.environ.get('VERIF_ASSUME_KNOWN')
-    if assume:
-        rec.known_keys |= set(assume.split(','))
     wit = w['witness']
     script = wit['script']
     if wit.get('lifespan'):
